@@ -1,9 +1,8 @@
 use tevec::prelude::*;
 fn main() {
-    let x = vec![1., 2., 3., 4., 5.];
-    let r: Vec<f64> = x.ts_vreg_resid_mean(3, None); println!("resid_mean of a perfect line = {:?}", r);
-    let r: Vec<f64> = x.ts_vreg_slope(3, None); println!("slope = {:?}", r);
-    let big: Vec<f64> = (0..60000).map(|i| (i % 7) as f64).collect();
-    let r = std::panic::catch_unwind(|| { let r: Vec<f64> = big.ts_vreg_slope(60000, Some(2)); r[59999] });
-    println!("slope n=60000: {:?}", r.map_err(|_| "PANIC"));
+    for (s, d) in [("2020-01-15 10:11:12", "3mo"), ("2020-01-15 10:11:12", "1mo"), ("2020-05-31 10:11:12", "6mo"), ("2020-05-31 10:11:12", "1y"), ("2020-12-31 23:59:59", "1mo"), ("2020-03-31 00:00:00", "2mo")] {
+        let dt: DateTime = s.parse().unwrap();
+        let td = TimeDelta::parse(d).unwrap();
+        println!("{s} trunc {d} -> {:?}", dt.duration_trunc(td));
+    }
 }
